@@ -1,5 +1,6 @@
 import OmplModel.Model.RRT
 import OmplModel.Model.RRTHistory
+import OmplModel.Model.RRTConnectHistory
 import OmplModel.Model.GoalStates
 import OmplModel.Model.RRTConnect
 import OmplModel.Driver.Common
@@ -26,6 +27,8 @@ histories of one RRT object (Model/RRTHistory.lean; lock-step twin of the harnes
     hinit                              fresh planner after setup() (range configured), problem definition = the starts so far
     hsolve                             Op.solve on the draws given since the last hsolve -> status line
     hclear | haddstart <state> | hrange <r> | hthr <t> | hinterm <0|1> | hsetup | hclearsol      the other Ops -> ok
+    hcinit | hcsolve <ptc> | hcclear | hcaddstart <state> | hcrange <r> | hcclearsol | hctrees | hctreeg | hcpath | hcpdef
+                                       the same for one RRTConnect object (Model/RRTConnectHistory.lean)
     htree / hpath / hpdef              tree, path registered by the last hsolve, problem definition (count, flag,
                                        difference of the top solution, flag:difference of every solution in insertion order)
 
@@ -67,6 +70,8 @@ structure Env where
   reportC : Option (OmplModel.RRTConnect.Report State Float) := none
   added : Option (List State × Bool × Float) := none
   world : Option (World State Float) := none
+  worldC : Option (OmplModel.RRTConnect.World State Float) := none
+  hrepC : Option (OmplModel.RRTConnect.Report State Float) := none
   hrep : Option (Report State Float) := none
 
 /-- `RealVectorStateSpace::distance` -/
@@ -285,6 +290,67 @@ def step (e : Env) (ts : List String) : Env × String :=
       (e, s!"pdef count={getSolutionCount pd'} approx={if hasApproximateSolution lt better pd' then 1 else 0} " ++
         s!"diff={floatBits (getSolutionDifference lt better (-1.0) pd')}")
     else (e, "bad-op")
+  | ["hcinit"] =>
+    if e.lo.size = e.dim ∧ e.hi.size = e.dim ∧ e.goal.size = e.dim then
+      ({ e with worldC := some (OmplModel.RRTConnect.World.fresh e.starts (effRange e)), draws := #[], hrepC := none }, "ok")
+    else (e, "bad-op")
+  | "hcaddstart" :: rest =>
+    match e.worldC, floats? rest with
+    | some w, some s =>
+      if s.size = e.dim then ({ e with worldC := some (OmplModel.RRTConnect.applyOp (cfgC e) w (.addStart s)).1 }, "ok")
+      else (e, "bad-op")
+    | _, _ => (e, "bad-op")
+  | ["hcrange", x] =>
+    match e.worldC, parseFloatBits? x with
+    | some w, some r => ({ e with worldC := some (OmplModel.RRTConnect.applyOp (cfgC e) w (.setRange r)).1 }, "ok")
+    | _, _ => (e, "bad-op")
+  | ["hcclear"] =>
+    match e.worldC with
+    | some w => ({ e with worldC := some (OmplModel.RRTConnect.applyOp (cfgC e) w .clear).1 }, "ok")
+    | none => (e, "bad-op")
+  | ["hcclearsol"] =>
+    match e.worldC with
+    | some w => ({ e with worldC := some (OmplModel.RRTConnect.applyOp (cfgC e) w .clearSolutions).1 }, "ok")
+    | none => (e, "bad-op")
+  | ["hcsolve", n] =>
+    match e.worldC, parseNat? n with
+    | some w, some n =>
+      let us := (e.draws.toList.filter (fun d => !d.fromGoal)).map (·.state)
+      match OmplModel.RRTConnect.applyOp (cfgC e) w (.solve n us) with
+      | (w', some r) =>
+        let a := match r.added with | some _ => "1" | none => "0"
+        ({ e with worldC := some w', hrepC := some r, draws := #[] },
+          s!"status={r.status.name} bool={if r.status.toBool then 1 else 0} added={a} unused={r.unusedDraws} " ++
+          s!"short={if r.scriptShort then 1 else 0} fuelout={if r.fuelOut then 1 else 0} " ++
+          s!"nstart={r.pis.addedStartStates} ngoal={r.pis.sampledGoalsCount} starttree={if r.startTree then 1 else 0} " ++
+          s!"range={floatBits w.range}")
+      | _ => (e, "bad-op")
+    | _, _ => (e, "bad-op")
+  | ["hctrees"] =>
+    match e.worldC with
+    | some w => (e, joinSp (s!"treeS n={w.planner.tStart.size}" :: w.planner.tStart.toList.map showNodeC))
+    | none => (e, "bad-op")
+  | ["hctreeg"] =>
+    match e.worldC with
+    | some w => (e, joinSp (s!"treeG n={w.planner.tGoal.size}" :: w.planner.tGoal.toList.map showNodeC))
+    | none => (e, "bad-op")
+  | ["hcpath"] =>
+    match e.hrepC with
+    | some r =>
+      match r.added with
+      | some (p, _, _) => (e, joinSp (s!"path n={p.length}" :: p.map showState))
+      | none => (e, "path none")
+    | none => (e, "bad-op")
+  | ["hcpdef"] =>
+    match e.worldC with
+    | some w =>
+      let lt : Float → Float → Bool := fun a b => decide (a < b)
+      let better : List State → List State → Bool := fun _ _ => false
+      let sols := w.pd.solutions.map (fun s => (if s.approximate then "1" else "0") ++ ":" ++ floatBits s.difference)
+      (e, s!"pdef count={getSolutionCount w.pd} approx={if hasApproximateSolution lt better w.pd then 1 else 0} " ++
+        s!"diff={floatBits (getSolutionDifference lt better (-1.0) w.pd)} " ++
+        s!"sols={if sols.isEmpty then "-" else ",".intercalate sols}")
+    | none => (e, "bad-op")
   | ["hinit"] =>
     if e.lo.size = e.dim ∧ e.hi.size = e.dim ∧ e.goal.size = e.dim then
       ({ e with world := some (World.fresh e.starts ⟨effRange e, e.thr, e.interm⟩), draws := #[], hrep := none }, "ok")
